@@ -114,11 +114,22 @@ def handleScan (ds : DState) (sc : ScanCase) : DState × Json :=
     let out := r.val
     -- the context in which a group's observed journal is judged: the state, provider group (after this scan's refresh —
     -- or rebuild — and after the groups before it) and view the model's own run started that group from
+    -- "the group's current desired size", its bounds and its members are what the cloud holds, not what a provider
+    -- object remembers: where the harness reports them, the observed journal is judged against them
+    let truth (x : Spec.Ctx) : Spec.Ctx :=
+      match (sc.cloud.getD []).find? (fun a => a.name == x.g.asg.name) with
+      | some a =>
+        let st' := if autoDiscover x.cfg then { x.st with minEff := a.min, maxEff := a.max } else x.st
+        let g' := { x.g with asg := a }
+        { x with g := g', st := st' }
+      | none => x
     let ctxOf (c : GroupCfg) (stR : CState) : Option Spec.Ctx :=
       match out.recs.find? (fun m => m.name == c.name) with
-      | some m => some { globalDry := ds.ctl.globalDry, cfg := m.cfg, st := m.pre, g := m.preG, view := m.view,
-                         nowMock := sc.nowMock, nowReal := sc.nowReal }
-      | none => ctxFor ds.ctl stR c sc
+      | some m =>
+        let x : Spec.Ctx := { globalDry := ds.ctl.globalDry, cfg := m.cfg, st := m.pre, g := m.preG, view := m.view,
+                              nowMock := sc.nowMock, nowReal := sc.nowReal }
+        some (truth x)
+      | none => (ctxFor ds.ctl stR c sc).map truth
     -- compare
     let dOutcome := if outcomeStr out.outcome == sc.obs.outcome then [] else ["outcome"]
     let dPre := if out.pre == sc.obs.pre then [] else ["pre"]
